@@ -1008,6 +1008,43 @@ Proof.
   - destruct Ho as [Hp Ho]. right. rewrite Ho. auto.
 Qed.
 
+(* ---- a stored entry is an entry, whatever its share: raises are judged against it *)
+Lemma royalty_update_stores ct self e m new s s' ms :
+  step ct self e (OUpdateInfo m) s = Ok (s', ms) -> u_royalty m = Some new ->
+  ci_royalty (info s') = Some new.
+Proof.
+  intros H Hm. apply step_exec in H. destruct H as [_ H].
+  destruct (exec_royalty _ _ _ _ _ _ H) as [(Hc & _) | (m' & new' & Heq & Hm' & _ & Hr & _)].
+  - simpl in Hc. rewrite Hm in Hc. discriminate.
+  - inversion Heq; subst. rewrite Hm in Hm'. inversion Hm'; subst. exact Hr.
+Qed.
+
+Lemma raise_refused ct self e m new old s :
+  ci_royalty (info s) = Some old -> u_royalty m = Some new ->
+  r_share old + MAX_DELTA < r_share new \/ (r_share old < r_share new /\ MAX_SHARE < r_share new) ->
+  step ct self e (OUpdateInfo m) s = Err.
+Proof.
+  intros Ho Hm Hbig.
+  destruct (step ct self e (OUpdateInfo m) s) as [[s' ms]|] eqn:H; [|reflexivity].
+  exfalso. pose proof (royalty_update_stores _ _ _ _ _ _ _ _ H Hm) as Hn.
+  assert (Hlt : r_share old < r_share new) by (destruct Hbig as [Hb|[Hb _]]; lia).
+  destruct (raise_bounded _ _ _ _ _ _ _ _ _ H Ho Hn Hlt) as [H1 H2].
+  destruct Hbig as [Hb|[_ Hb]]; lia.
+Qed.
+
+(* instantiate stores the royalty entry it is given: Some with share 0 stays an entry, and
+   the first update of such a collection is a raise from 0 % - above 2 % it is refused,
+   at any time, from any sender *)
+Lemma zero_share_entry_is_an_entry ct self t b f mi c s payee e m new :
+  instantiate ct t b f mi c = Ok s -> ci_royalty c = Some (mkRoy payee 0) ->
+  u_royalty m = Some new -> MAX_DELTA < r_share new ->
+  ci_royalty (info s) = Some (mkRoy payee 0) /\ step ct self e (OUpdateInfo m) s = Err.
+Proof.
+  intros H Hc Hm Hbig. destruct (share_ok_instantiate _ _ _ _ _ _ _ H) as (_ & _ & _ & Hi).
+  rewrite Hi. split; [exact Hc|].
+  eapply raise_refused; [rewrite Hi; exact Hc | exact Hm | left; simpl; lia].
+Qed.
+
 (* ================================================================== histories with migrations *)
 (* The deployed contract: calls and admin migrations to the sg721-updatable code. *)
 Lemma migrate_ok nw d d' :
@@ -1278,6 +1315,18 @@ Proof.
     destruct Hb as [b [Hb Hle]]. destruct (IH _ _ Hb) as [c [Hc Hle']].
     exists c. split; [exact Hc | lia].
 Qed.
+
+Lemma d_raise_refused self e m new old d :
+  ci_royalty (info (d_st d)) = Some old -> u_royalty m = Some new ->
+  r_share old + MAX_DELTA < r_share new \/ (r_share old < r_share new /\ MAX_SHARE < r_share new) ->
+  dstep self e (ACall (OUpdateInfo m)) d = Err.
+Proof.
+  intros Ho Hm Hbig. simpl. rewrite (raise_refused (d_ct d) self e m new old (d_st d) Ho Hm Hbig). reflexivity.
+Qed.
+
+Lemma migrate_keeps_royalty self e d d' ms :
+  dstep self e AMigrate d = Ok (d', ms) -> ci_royalty (info (d_st d')) = ci_royalty (info (d_st d)).
+Proof. intros H. apply migrate_keeps in H. destruct H as (_ & _ & _ & _ & _ & _ & Hi & _). rewrite Hi. reflexivity. Qed.
 
 (* cadence: a migration re-creates the anchor only for cw2 versions below 3.1.0 (which
    predate it); a deployment at or above 3.1.0 stays there (a migration records the
